@@ -23,8 +23,14 @@ def tree_from_model(fs, m, namefmt='n%d'):
         par[i] = m.eval(fs.parent[i], model_completion=True).as_long()
         kind[i] = m.eval(fs.kind[i], model_completion=True).as_long()
     path = {r: 'R%d' % r for r in range(fs.nroots)}
+    bad = {}
+    if hasattr(fs, 'nonutf8'):
+        for i in range(M):
+            bad[i] = z3.is_true(m.eval(fs.nonutf8[i], model_completion=True))
     for i in range(fs.nroots, M):
-        path[i] = path[par[i]] + '/' + namefmt % i
+        # a node whose path is not valid UTF-8 while its parent's is: its own name carries a stray byte 0xE9
+        own = bad.get(i) and not bad.get(par[i])
+        path[i] = path[par[i]] + '/' + namefmt % i + ('\udce9' if own else '')
     tree = {}
     for r in range(fs.nroots):
         tree[path[r]] = {'kind': 'dir'}
@@ -85,6 +91,8 @@ def cli_replay(fs, m, mind, maxd, dfs, nroots):
             r_ = common.run_cli(exe, argv, tree)
             got = r_['stdout'].split('\n')[:-1]
             want, depth = expected_rows(fs, path, par, kind, usable, mind, maxd)
+            want = sorted(w.replace('\udce9', '\ufffd') for w in want)     # names print lossily
+            path = {k: v.replace('\udce9', '\ufffd') for k, v in path.items()}
             bad = sorted(got) != want or r_['status'] != 0
             det = 'fselect %s on %r -> %r ; expected %r (status %s, stderr %r)' % (' '.join(argv), {k: v.get('kind', 'file') + ('->' + v['target'] if 'target' in v else '') for k, v in tree.items()}, got, want, r_['status'], r_['stderr'][:200])
             if not bad:
